@@ -1013,6 +1013,26 @@ def perm_families(ctx, pool, idx, thorough):
     return sigma
 
 
+def slash_families(pool, thorough):
+    """inlining inside `address / port`: both operands literal, one or both bound by let first -- the same value, the
+    same outcome (also for ports beyond 16 bits, which must be refused in every spelling)"""
+    r = pool.rng
+    ports = [0, 80, 65535, 65536, 65616, 2 ** 32 + 80, 2 ** 64 - 1] + ([r.getrandbits(17) for _ in range(4)] if thorough else [r.getrandbits(17)])
+    for n, pt in enumerate(ports):
+        a = r.choice(["10.0.0.1", "192.168.7.9", "1.2.3.4"])
+        plit = lambda: (INT(pt) if n % 2 == 0 else gen.Lit("hexint", pt, "0x%x" % pt))
+        head = [Import("ipv4")]
+        call = lambda x: Do(Call("ipv4::udp::unicast", x, SOCK("10.0.0.2:53"), STR(b"payload")))
+        both = head + [call(Slash(IP(a), plit()))]
+        base, _ = pool.add(both)
+        for kind, prog in (("port", head + [Let("sp", plit()), call(Slash(IP(a), Ref("sp")))]),
+                           ("address", head + [Let("sa", IP(a)), call(Slash(Ref("sa"), plit()))]),
+                           ("both", head + [Let("sa", IP(a)), Let("sp", plit()), call(Slash(Ref("sa"), Ref("sp")))]),
+                           ("socket", head + [Let("ss", Slash(IP(a), plit())), call(Ref("ss"))])):
+            v, _ = pool.add(prog)
+            pool.fam("inline-all", {"lets": 1, "uses": 1, "kinds": ["slash-" + kind], "port": pt}, variant=base, base=v)
+
+
 # ---------------------------------------------------------------- driver
 
 def run(ctx):
@@ -1022,6 +1042,7 @@ def run(ctx):
     nprog, nnest, nperm = (600, 1400, 1000) if thorough else (90, 280, 200)
     for i in range(nprog):
         program_families(ctx, pool, i, thorough)
+    slash_families(pool, thorough)
     nests = [x for x in (nest_families(ctx, pool, i, thorough) for i in range(nnest)) if x]
     sigmas = [perm_families(ctx, pool, i, thorough) for i in range(nperm)]
     diff.run_both(ctx, "c14", pool.cases, keep=True, model_verbose=True)
